@@ -405,7 +405,7 @@ func (br *bodyRun) havocLoop(li *loopInfo, st *State) {
 					hi := fc.smt.define("whi", bvsort(64), app("bvadd", ms.Off, ms.Len))
 					old := fc.smt.defineAlways("wold", inner, app("select", fc.heapSym(st, k.key, k.sort), s.Ref))
 					j := fc.smt.freshName("j")
-					fc.smt.addExtra(na, fmt.Sprintf("(forall ((%s (_ BitVec 64))) (! (=> (not (and (bvsle %s %s) (bvslt %s %s))) (= (select %s %s) (select %s %s))) :pattern ((select %s %s))))", j, lo, j, j, hi, na, j, old, j, na, j))
+					fc.smt.addExtra(na, fmt.Sprintf("(forall ((%s (_ BitVec 64))) (! (=> (not (bvult (bvsub %s %s) (bvsub %s %s))) (= (select %s %s) (select %s %s))) :pattern ((select %s %s))))", j, j, lo, hi, lo, na, j, old, j, na, j))
 					br.writeRanges = append(br.writeRanges, writeRange{key: k.key, ref: s.Ref, lo: lo, hi: hi, li: li})
 					break
 				}
@@ -955,11 +955,11 @@ func (fc *FnCtx) prove(env *SpecEnv, e *Expr, st *State, name, kind string, pos 
 			rec(env, &Expr{K: "bin", Op: "==>", X: []*Expr{e.X[0], e.X[1]}}, st)
 			rec(env, &Expr{K: "bin", Op: "==>", X: []*Expr{e.X[1], e.X[0]}}, st)
 			return
-		case e.K == "bin" && e.Op == "==" && isBytesCall(e.X[0]) && isBytesCall(e.X[1]):
+		case e.K == "bin" && e.Op == "==" && isBytesLike(e.X[0]) && isBytesLike(e.X[1]):
 			// content equality: lengths, then one skolemised index
 			ev := env.inState(st)
-			fa := ev.freeze(ev.eval(e.X[0].X[1]))
-			fb := ev.freeze(ev.eval(e.X[1].X[1]))
+			fa := ev.eval(e.X[0]).V.(FrozenV)
+			fb := ev.eval(e.X[1]).V.(FrozenV)
 			n++
 			nm := name
 			if n > 1 {
@@ -995,6 +995,14 @@ func (fc *FnCtx) prove(env *SpecEnv, e *Expr, st *State, name, kind string, pos 
 	rec(env.inState(st), e, st)
 	// the whole fact may be assumed afterwards
 	fc.assume(st, fc.hyp(env.inState(st), e))
+}
+
+// isBytesLike: bytes(x) or old(bytes(x)).
+func isBytesLike(e *Expr) bool {
+	if isBytesCall(e) {
+		return true
+	}
+	return e.K == "call" && e.X[0].K == "id" && e.X[0].Name == "old" && len(e.X) == 2 && isBytesLike(e.X[1])
 }
 
 func (fc *FnCtx) specRecover(name, src string) {
